@@ -361,6 +361,33 @@ func checkC16(c *Ctx) Meta {
 	}
 
 	// ---- FRAME
+	// a frame read that failed is not resumed: io.ReadFull drops the bytes it already consumed when it fails (a
+	// read deadline, a short read), so reading "again" from its failure edge continues in the middle of a frame and
+	// every later length prefix is garbage
+	{
+		n := 0
+		var fns []*ssa.Function
+		for fn := range c.AllFuncs {
+			if fn != nil && fn.Blocks != nil && pkgOf(outermost(fn)) == repoMod+"/fractal/connection" {
+				fns = append(fns, fn)
+			}
+		}
+		sort.Slice(fns, func(i, j int) bool { return FuncName(fns[i]) < FuncName(fns[j]) })
+		for _, fn := range fns {
+			for _, rd := range callsInShallow(fn, "io.ReadFull", "io.ReadAtLeast") {
+				n++
+				key := FuncName(fn) + ":failed-read-not-resumed"
+				if reach(fn, rd, errorEdgeCut(fn, rd, false), nil)(rd) {
+					c.Bad("C16-FRAME", key, c.Pos(rd.Pos()), "the same io.ReadFull is reachable again from its own failure edge (a retry loop): the bytes consumed by the failed attempt are lost, the next attempt starts in the middle of the frame and the stream is decoded out of step from then on")
+				} else {
+					c.OK("C16-FRAME", key, c.Pos(rd.Pos()), "a failed read leaves the function; it is never repeated on the same stream position")
+				}
+			}
+		}
+		if n == 0 {
+			c.Bad("C16-FRAME", "connection:read-anchor", "", "reason=anchor-missing: no io.ReadFull in fractal/connection")
+		}
+	}
 	if f := c.MustFn("C16-FRAME", "fractal/connection", "(*Conn).receiveRoutine"); f != nil {
 		key := "receiveRoutine:size-bounded-before-allocation"
 		// the announced size: the header decoder, or the big-endian read itself where the decoder was folded in
